@@ -2,6 +2,9 @@ package sim
 
 import (
 	"encoding/json"
+	"os"
+	"path/filepath"
+	"strings"
 
 	eswriter "github.com/siglens/siglens/pkg/es/writer"
 	"github.com/valyala/fasthttp"
@@ -26,3 +29,28 @@ func delIndex(raw json.RawMessage) (interface{}, error) {
 func init() {
 	Register("delindex", delIndex)
 }
+
+type FilesArgs struct {
+	Contains string `json:"contains"`
+}
+
+// files lists regular files under the data dir whose path contains the given substring (path relative to the dir, size).
+func filesOp(raw json.RawMessage) (interface{}, error) {
+	var a FilesArgs
+	if err := json.Unmarshal(raw, &a); err != nil {
+		return nil, err
+	}
+	out := map[string]int64{}
+	_ = filepath.Walk(DataDir+"data/", func(p string, info os.FileInfo, err error) error {
+		if err != nil || info.IsDir() {
+			return nil
+		}
+		if a.Contains == "" || strings.Contains(p, a.Contains) {
+			out[strings.TrimPrefix(p, DataDir)] = info.Size()
+		}
+		return nil
+	})
+	return out, nil
+}
+
+func init() { Register("files", filesOp) }
